@@ -81,7 +81,7 @@ def regenerate_facts(pid, log):
     exe, err = build_extractor(pid, log)
     if exe is None:
         return False, "extractor build failed: " + err[-2000:]
-    tmp = out + ".new"
+    tmp = out + f".new.{RUNTAG}"  # private to this run: concurrent runs of one property must not share it
     rc, o, _ = run([exe, REPO, pid, tmp])
     if rc != 0 or not os.path.exists(tmp):
         return False, "extractor failed: " + o[-2000:]
